@@ -59,8 +59,8 @@ const KIB: usize = 1024;
 const MIB: usize = 1024 * 1024;
 /// virtual time: the paused clock only reaches this once nothing else can run
 const WAIT: Duration = Duration::from_secs(3600);
-/// Request id of the case being executed: cycles over an ordinary id, 0 (a valid REPE id), u64::MAX and 1 (the
-/// id the crate's own clients start from) with the case's size and limit, so every path sees all four.
+/// Request id of the case being executed: an ordinary id, 0 (a valid REPE id), u64::MAX and 1 (the id the
+/// crate's own clients start from); see `enumerate` for which case uses which.
 const REQ_IDS: [u64; 4] = [0x0C17_0007, 0, u64::MAX, 1];
 thread_local! {
     static CUR_REQ_ID: std::cell::Cell<u64> = const { std::cell::Cell::new(0x0C17_0007) };
@@ -173,12 +173,14 @@ struct Case {
     path: PathK,
     /// notification paths: the same notification is pushed / broadcast this many times in a row
     repeat: u8,
+    /// index into REQ_IDS of the request id this case uses
+    idk: u8,
 }
 
 impl Case {
     fn json(&self) -> Value {
         let (q, b) = shape(self);
-        json!({"limit": self.limit, "size": self.size, "place": self.place.name(), "path": self.path.name(), "repeat": self.repeat,
+        json!({"limit": self.limit, "size": self.size, "place": self.place.name(), "path": self.path.name(), "repeat": self.repeat, "request_id": REQ_IDS[self.idk as usize % REQ_IDS.len()],
                "query_len": q, "body_len": b, "real_size": frames::HEADER + q + b})
     }
     fn from_json(v: &Value) -> Option<Case> {
@@ -191,6 +193,7 @@ impl Case {
             place: Place::from_name(v["place"].as_str()?)?,
             path: PathK::from_name(v["path"].as_str()?)?,
             repeat: v["repeat"].as_u64().unwrap_or(1) as u8,
+            idk: v["request_id"].as_u64().and_then(|id| REQ_IDS.iter().position(|x| *x == id)).unwrap_or(0) as u8,
         })
     }
 }
@@ -242,7 +245,7 @@ fn enumerate(tier: Tier) -> Vec<Case> {
         for size in sizes_of(limit, tier) {
             for place in PLACES {
                 for path in PATHS {
-                    out.push(Case { limit, size, place, path, repeat: 1 });
+                    out.push(Case { limit, size, place, path, repeat: 1, idk: 0 });
                 }
             }
         }
@@ -254,12 +257,23 @@ fn enumerate(tier: Tier) -> Vec<Case> {
             for path in PATHS {
                 if path.is_notify() {
                     for repeat in [2u8, 3] {
-                        out.push(Case { limit, size, place: Place::Body, path, repeat });
+                        out.push(Case { limit, size, place: Place::Body, path, repeat, idk: 0 });
                     }
                 }
             }
         }
     }
+    // request ids: every case gets one of the four by its position; the cases at and above the limit (where
+    // the guard acts) are repeated with the other three, appended so that earlier indices stay put
+    for (i, c) in out.iter_mut().enumerate() {
+        c.idk = (i % REQ_IDS.len()) as u8;
+    }
+    let extra: Vec<Case> = out
+        .iter()
+        .filter(|c| !c.path.is_notify() && c.limit.is_some_and(|l| c.size >= l))
+        .flat_map(|c| (0..REQ_IDS.len() as u8).filter(|k| *k != c.idk).map(|k| Case { idk: k, ..c.clone() }).collect::<Vec<_>>())
+        .collect();
+    out.extend(extra);
     out
 }
 
@@ -903,7 +917,7 @@ async fn proxy_case(c: &Case, q: usize, b: usize) -> CaseOut {
 /// either downstream peer, A's answer arrives unchanged, nothing panics.
 async fn proxy_shared_case(limit: usize, q: usize) -> CaseOut {
     let mut o = CaseOut::default();
-    let c = Case { limit: Some(limit), size: frames::HEADER + q + 3, place: Place::Query, path: PathK::Proxy, repeat: 1 };
+    let c = Case { limit: Some(limit), size: frames::HEADER + q + 3, place: Place::Query, path: PathK::Proxy, repeat: 1, idk: 0 };
     let (up_cli, up_srv, uctl) = memstream::pair();
     let _keep_upstream_end = up_srv;
     let slot = next_slot();
@@ -1001,7 +1015,7 @@ fn run_proxy_shared(limit: usize, q: usize) -> CaseOut {
         Ok(o) => o,
         Err(_) => {
             let mut o = CaseOut::default();
-            let c = Case { limit: Some(limit), size: frames::HEADER + q + 3, place: Place::Query, path: PathK::Proxy, repeat: 1 };
+            let c = Case { limit: Some(limit), size: frames::HEADER + q + 3, place: Place::Query, path: PathK::Proxy, repeat: 1, idk: 0 };
             o.bad(&c, "panic", "panic while executing the shared-upstream proxy case".into());
             o
         }
@@ -1136,7 +1150,7 @@ async fn client_case(c: &Case, q: usize, b: usize) -> CaseOut {
 
 fn run_case(c: &Case) -> CaseOut {
     let (q, b) = shape(c);
-    CUR_REQ_ID.with(|x| x.set(REQ_IDS[(c.size + c.limit.unwrap_or(7) / 3 + c.repeat as usize) % REQ_IDS.len()]));
+    CUR_REQ_ID.with(|x| x.set(REQ_IDS[c.idk as usize % REQ_IDS.len()]));
     let r = std::panic::catch_unwind(std::panic::AssertUnwindSafe(|| {
         memstream::run_paused(async {
             match c.path {
